@@ -897,22 +897,13 @@ func main() {
 			c(CIn{Max: 1 << 20, Openable: true, Bursts: [][]int{rep(2000, 300), rep(2000, 300)}})
 		}
 		// more than 500 KiB through the channel without idle gap into small files: the size flush
-		// hands one large batch to Write, which must consist of whole lines (last, so that each
-		// lands in a shard of its own)
-		pad := func() {
-			for len(ins)%60 != 0 {
-				w(genW(r, false))
-			}
-		}
-		pad()
+		// hands one large batch to Write, which must consist of whole lines
 		c(bigBurst(1024, []int{350}, 546000))
-		pad()
 		c(bigBurst(4096, []int{97, 1000, 350}, 560000))
 		if o.Tier != "quick" {
 			for _, x := range []CIn{bigBurst(1024, []int{97}, 530000), bigBurst(1024, []int{1000}, 600000),
 				bigBurst(1024, []int{350, 97, 1000}, 580000), bigBurst(4096, []int{350}, 540000),
 				bigBurst(4096, []int{1000}, 600000), bigBurst(1024, []int{350, 1030, 97}, 560000)} {
-				pad()
 				c(x)
 			}
 		}
